@@ -6,6 +6,7 @@ From Coq Require Import Extraction ExtrOcamlBasic.
 From Crusta Require Import Spec.AF Sat.Cnf Sat.Prog Model.Store Model.Encoders Model.Graph Model.Solvers.
 From Crusta Require Import Model.Equiv.
 From Crusta Require Import Model.Readers Model.Writers.
+From Crusta Require Import Sat.Dpll Sat.Dimacs Model.SatObjects Model.Pipe.
 Extraction Language OCaml.
 Separate Extraction
   (* spec oracle *)
@@ -33,3 +34,11 @@ Separate Extraction
   Writers.utf8_encode Writers.dec Writers.dec_nat Writers.parse_w Writers.parse_bracket
   (* (new roots go above this line; the terminating period stays alone on the next line) *)
 .
+  (* reference SAT solver, DIMACS text, SAT solver objects, pipe LTS (C15/C16, vdpll) *)
+  Dpll.solve Dpll.solve_n Dpll.solve_answer
+  Dimacs.parse_instance Dimacs.print_instance Dimacs.reply_parse Dimacs.print_reply Dimacs.render_sat
+  Dimacs.render_unsat
+  SatObjects.cad_step SatObjects.buf_step SatObjects.cad_new SatObjects.buf_new SatObjects.run_obj
+  SatObjects.vdpll_fn SatObjects.dpll_backend SatObjects.buf_instance SatObjects.verdict_of
+  SatObjects.obs_of_reply SatObjects.clauses_of
+  Pipe.run_config Pipe.steps Pipe.init Pipe.stuck.
